@@ -2,7 +2,7 @@
     for the module index as a per-file fact store, over EVERY history of the driver.
     [state c ops] below is the real index model after the driver history [ops] ([HUpdate f x] = update_file_by_uri,
     [HRemove f] = remove_file_by_uri, [HReindex] = reindex); [indexed] is the list of (file, facts) currently indexed. *)
-From EV Require Import Base.StoreSM C33.Model C33.Spec C33.Proofs C08.Module C08.PropertyModel C08.Proofs.
+From EV Require Import Base.StoreSM C33.Model C33.Spec C33.Proofs C08.Module C08.PropertyModel C08.SimpleModels C08.Global C08.Diag C08.Product C08.MemberModel C08.Proofs.
 Local Open Scope N_scope.
 
 (** Re-submitting a file with unchanged facts changes no answer of the module index, provided no other file is
@@ -48,6 +48,47 @@ Theorem property_resubmit_outside_known : forall (ops : list pop) (f : N) (facts
   (forall l, ngetN f (px_infile s) = Some l -> ~ In owner l) ->
   p_get (p_add f facts (p_remove f s)) owner = p_get s owner.
 Proof. exact Proofs.property_resubmit_outside_known. Qed.
+
+(** LuaGlobalIndex (full refinement): re-submitting a file changes no [get_global_decl_ids] answer when no other file
+    declares one of its globals ... *)
+Theorem global_resubmit_obs : forall ops f x q, In (f, x) (indexed gfacts ops) -> glob_excl (indexed gfacts ops) f ->
+  g_get (state _ _ _ _ glob_store (ops ++ [HUpdate _ f x])) q = g_get (state _ _ _ _ glob_store ops) q.
+Proof. exact Product.glob_resubmit_obs. Qed.
+
+(** ... and does change it otherwise (the declarations of one global are kept in submission order: open finding). *)
+Theorem global_resubmit_shared_refuted : exists ops f x q, In (f, x) (indexed gfacts ops) /\
+  g_get (state _ _ _ _ glob_store (ops ++ [HUpdate _ f x])) q <> g_get (state _ _ _ _ glob_store ops) q.
+Proof. exact Product.glob_resubmit_shared_refuted. Qed.
+
+(** The product store (LuaModuleIndex x LuaGlobalIndex x DiagnosticIndex, i.e. the modelled part of DbIndex under
+    update_file_by_uri / remove_file_by_uri / reindex): a re-submission never changes any container count, and changes no
+    answer when the file shares no module path and no global with another file. *)
+Theorem product_resubmit_size : forall c ops f x, In (f, x) (indexed dbfacts ops) ->
+  db_size c (db_state c (ops ++ [HUpdate _ f x])) = db_size c (db_state c ops).
+Proof. exact Product.db_resubmit_size. Qed.
+Theorem product_resubmit_obs : forall c ops f x q, In (f, x) (indexed dbfacts ops) -> db_excl c (indexed dbfacts ops) f ->
+  db_obs c (db_state c (ops ++ [HUpdate _ f x])) q = db_obs c (db_state c ops) q.
+Proof. exact Product.db_resubmit_obs. Qed.
+
+(** LuaMemberIndex (transcribed, One / Many items): [remove(file)] keeps, in every item, exactly the declarations of the
+    OTHER files, and drops the key only when every declaration belonged to the removed file. *)
+Theorem member_prune_item_exact : forall f it,
+  match prune_item f it with
+  | Some it' => forall m, In m (item_ids it') <-> In m (item_ids it) /\ fst m <> f
+  | None => forall m, In m (item_ids it) -> fst m = f
+  end.
+Proof. exact Proofs.member_prune_item_exact. Qed.
+
+Example product_example :
+  let c := ex_cfg in
+  let ops := [HUpdate dbfacts 1 (([97; 46; 98], 1, false), ([(7, 3)], [(0, 2)]));
+              HUpdate _ 2 (([120; 46; 98], 1, false), ([(8, 1)], [(1, 2)]));
+              HUpdate _ 1 (([97; 46; 98], 1, false), ([(7, 3)], [(0, 2)])); HRemove _ 2; HReindex _] in
+  db_obs c (db_state c ops) (inl [98]) = inl (Some (1, [97; 46; 98], 1, false)) /\
+  db_obs c (db_state c ops) (inr (inl 7)) = inr (inl (Some [(1, 3)])) /\
+  db_obs c (db_state c ops) (inr (inr (1, 2))) = inr (inr (true, false)) /\
+  db_size c (db_state c ops) = [3; 1; 1; 1; 1; 0].
+Proof. exact Product.db_example. Qed.
 
 Example resubmit_example :
   let c := ex_cfg in
